@@ -576,7 +576,10 @@ META["C10"]["assumptions"] = START_ASSUME + [
     "with any code 1..20000 except ERROR_BROKEN_PIPE (the library's own 'stream absent' value); each parent "
     "standard handle is present, absent (NULL) or GetStdHandle fails"]
 META["C10"]["outside"] = START_OUTSIDE + ["Windows: pipe.windows.c, utf.windows.c and CreateProcessW's use of the handles "
-                                          "(only redirect_init/redirect_destroy are encoded there)"]
+                                          "(only redirect_init/redirect_destroy and process_start are encoded there)",
+                                          "Windows: whether CreateProcessW accepts an inherit list that names one handle twice "
+                                          "when the caller gives the same handle for stdin and another stream (only the "
+                                          "stderr = stdout case, which the source handles, is asserted)"]
 add("C05", lambda tier: [winredir_job()])
 add("C04", lambda tier: [winredir_job()])
 add("C18", lambda tier: [static_job(windows=True)])
